@@ -996,6 +996,10 @@ pub fn c13(args: &Args) -> i32 {
     run.put("recoveries", json!(t.recoveries));
     run.put("nested_recoveries", json!(t.nested_recoveries));
     run.put("crash_points_with_image_cap_hit", json!(t.capped_points));
+    if t.capped_points > 0 {
+        run.put("exhaustive", json!(false));
+        run.put("exhaustive_note", json!("at some crash points the number of admissible images exceeded the per-point cap; the first images in enumeration order were taken there (count in crash_points_with_image_cap_hit)"));
+    }
     run.put("max_history_length", json!(max_len));
     drop(t);
     run.finish()
@@ -1239,6 +1243,10 @@ pub fn c16_crash_leg(_args: &Args, run: &Run) {
     run.put("crash_distinct_images", json!(t.distinct_images));
     run.put("crash_recoveries", json!(t.recoveries));
     run.put("crash_points_with_image_cap_hit", json!(t.capped_points));
+    if t.capped_points > 0 {
+        run.put("exhaustive", json!(false));
+        run.put("exhaustive_note", json!("at some crash points the number of admissible images exceeded the per-point cap; the first images in enumeration order were taken there (count in crash_points_with_image_cap_hit)"));
+    }
 }
 
 pub fn c16_replay(_args: &Args, j: &J) -> i32 {
